@@ -20,7 +20,7 @@ KIND_STYLES = {
     "TSI": ["flat", "repeat", "onedge", "grid"], "MACD": ["flat", "fine", "repeat"], "ROC": ["grid", "small"], "EMA": ["fine", "flat"],
     "SMA": ["fine", "flat"], "RMA": ["fine", "flat"], "WMA": ["fine"], "HMA": ["fine", "flat"], "STANDARDDEVIATION": ["flat", "repeat", "fine"],
     "STDEV": ["flat", "repeat", "fine"], "BBANDS": ["flat", "repeat", "fine"], "STANDARDDEVIATIONTHRESHOLD": ["repeat", "grid"],
-    "STDEVTHRES": ["repeat", "grid"], "COUNTER": ["grid", "repeat"],
+    "STDEVTHRES": ["repeat", "grid"], "COUNTER": ["grid", "repeat", "rising", "falling", "allzerovol", "flat"],
 }
 
 
